@@ -213,9 +213,29 @@ func c06IncludeUnit(tier string) *Unit {
 	return &Unit{Name: sc.Name, Sc: sc, Bound: bound, Prune: true, Check: both(c06Check(sp), c01Check(pg)), Weight: 4}
 }
 
+// c06IncludedDefaultUnit: an included Taskfile declares a top-level "run: once"; the root
+// Taskfile declares none, so its own tasks keep the default (always): a root task referenced
+// twice runs twice.
+func c06IncludedDefaultUnit(tier string) *Unit {
+	files := map[string]string{
+		"Taskfile.yml": "version: '3'\nincludes:\n  inc: ./inc.yml\ntasks:\n  root:\n    deps: ['inc:x']\n    cmds:\n      - task: t\n        vars: {VP: '{{.VP}}>root.c0'}\n      - task: t\n        vars: {VP: '{{.VP}}>root.c1'}\n" +
+			"  t:\n    cmds:\n      - printf '%s\\n' 'P|t|0|{{.VP}}|'\n",
+		"inc.yml": "version: '3'\nrun: once\ntasks:\n  x:\n    cmds:\n      - printf '%s\\n' 'P|inc:x|0|=|'\n",
+	}
+	pg := &Prog{Tasks: []*T{
+		{Name: "root", Deps: []Ref{DS("inc:x", "=")}, Cmds: []C{Call("t"), Call("t")}},
+		{Name: "t", Cmds: []C{P()}},
+		{Name: "inc:x", Run: "once", Cmds: []C{P()}},
+	}}
+	sp := &c06Spec{pg: pg, dedup: map[string]*c06Task{"t": {mode: "always", refs: 2}}}
+	sc := &vlab.Scenario{Name: "included-file-declares-run-once-root-default-stays-always/cinf", Files: files, Spec: pg,
+		Calls: []vlab.CallSpec{{Task: "root", Vars: [][2]string{{"VP", "@"}}}}}
+	return &Unit{Name: sc.Name, Sc: sc, Bound: 1, Prune: true, Check: c06Check(sp), Weight: 2}
+}
+
 func c06Units(tier string) []*Unit {
 	var us []*Unit
-	us = append(us, c06IncludeUnit(tier))
+	us = append(us, c06IncludeUnit(tier), c06IncludedDefaultUnit(tier))
 	specs := c06Specs()
 	var names []string
 	for k := range specs {
